@@ -1865,6 +1865,9 @@ def note_array_from_part_list(
             na["onset_div"] = na["onset_div"] * time_mult
             na["duration_div"] = na["duration_div"] * time_mult
             na["divs_pq"] = na["divs_pq"] * time_mult
+            for field in ("rel_onset_div", "tot_measure_div"):
+                if field in na.dtype.names:
+                    na[field] = na[field] * time_mult
 
     # concatenate note_arrays
     note_array = np.hstack(note_array)
